@@ -226,15 +226,25 @@ func (s *TimerQueue) trigger(now int64) []*timerNode {
 			continue
 		}
 
+		// decide under the mutex: a timer cancelled in the meantime is dropped,
+		// a one-shot timer leaves the refer map before it is delivered
+		s.guard.Lock()
+		var scheduled = s.refer[node.id] == node
+		if scheduled && node.period <= 0 {
+			delete(s.refer, node.id)
+		}
+		s.guard.Unlock()
+		if !scheduled {
+			heap.Pop(&s.timers)
+			continue
+		}
+
 		// 如果timer需要重复执行，只修正heap，id保持不变
 		if node.period > 0 {
 			node.deadline = now + node.period
 			heap.Fix(&s.timers, node.index)
 		} else {
 			heap.Pop(&s.timers)
-			s.guard.Lock()
-			delete(s.refer, node.id)
-			s.guard.Unlock()
 		}
 		expires = append(expires, node)
 	}
